@@ -286,6 +286,37 @@ def run(tier):
     if not bz <= xz:
         v.violation("c20:basic-zone-not-in-extended", "a zone emitted in basic scope is not emitted in extended scope", {"zones": sorted(bz - xz)[:6]})
     counters["basic_zones"], counters["extended_zones"] = len(bz), len(xz)
+    # every "<Supported|Unsupported|Notable> <zones|links|zone policies>: N" line of the generated headers against the
+    # entries listed under it, for the hand-written sources as well (they have zones that are noted AND removed)
+    def section_counts(text):
+        res = []
+        lines = text.splitlines()
+        heads = [(i, m) for i, ln in enumerate(lines) for m in [re.match(r"^// (Supported|Unsupported|Notable) (zones|links|zone policies): (\d+)\s*$", ln)] if m]
+        for hi, (i, m) in enumerate(heads):
+            end = heads[hi + 1][0] if hi + 1 < len(heads) else len(lines)
+            body = lines[i + 1:end]
+            if m.group(1) == "Supported":
+                n = sum(1 for b in body if b.startswith("extern "))
+            else:
+                n = sum(1 for b in body if re.match(r"^// \S+ [({]", b))
+            res.append(("%s %s" % (m.group(1), m.group(2)), int(m.group(3)), n))
+        return res
+    for other in ("tz2025b", "features", "unsupported"):
+        for scope, ns in (("extended", "gendbx"), ("basic", "gendb")):
+            try:
+                oc = comps[scope] if other == "tz2025b" else tzpipe.compile_source(indirs[other], scope, 2000, 2050)
+                og = gens[scope] if other == "tz2025b" else work / ("genhdr-%s-%s" % (other, scope))
+                if other != "tz2025b":
+                    tzpipe.generate_arduino(oc, og, ns)
+            except tzpipe.CompilerDied as e:
+                v.inconclusive_because("source %s/%s could not be generated (C03 judges that): %s" % (other, scope, repr(e.exc)[:200]))
+                continue
+            for fn in ("zone_infos.h", "zone_policies.h"):
+                for label, stated_n, listed_n in section_counts((og / fn).read_text()):
+                    counters["header_sections_checked"] = counters.get("header_sections_checked", 0) + 1
+                    if stated_n != listed_n:
+                        v.violation("c20:arduino-header-section-count", "a generated header states a number of entries different from the entries it lists",
+                                    {"program": other, "scope": scope, "file": fn, "section": label, "stated": stated_n, "listed": listed_n})
     # the same inclusion on the hand-written sources (constructs one scope supports and the other does not) and on the shipped lines
     for other in ("features", "unsupported", "recon-x"):
         try:
